@@ -795,6 +795,18 @@ def gen_jobs(ctx, n_jobs, long_small=0):
             job["bump"] = rng.randrange(1, 10 ** 6)
             job["bump_steps"] = rng.randrange(10, 60)
         jobs.append(job)
+    # configurations that a uniform draw reaches too rarely (each needs a specific combination to matter):
+    #  * the seed 0 — the only falsy seed (`if seed:` instead of `if seed is not None:` leaves the generators unseeded);
+    #  * selection switched on with tournament_k = 0 — `tournament_selection` then hands back the very same population list, so whatever the
+    #    hall of fame shares with the population is transformed in place in the next generation.
+    for solver in ("evo", "hybrid"):
+        jobs.append({"solver": solver, "graph": rng.choice(graphs3 + graphs4), "n_emitter": 1, "n_hof": rng.randrange(1, 4), "n_pop": rng.randrange(4, 8),
+                     "n_stop": rng.randrange(3, 9), "sel": rng.randrange(2), "adapt": rng.randrange(2), "k": 2, "seed": 0, "det": 1, "backend": "s",
+                     "positions": 0})
+    for solver in ("evo", "evo", "hybrid"):
+        jobs.append({"solver": solver, "graph": rng.choice(graphs3 + graphs4), "n_emitter": 1, "n_hof": rng.randrange(2, 5), "n_pop": rng.randrange(5, 9),
+                     "n_stop": rng.randrange(5, 11), "sel": 1, "adapt": rng.randrange(2), "k": 0, "seed": rng.randrange(10 ** 6), "det": 1, "backend": "s",
+                     "positions": 0})
     for i in range(long_small):
         jobs.append({"solver": "evo", "graph": rng.choice(["p2", "p3"]), "n_emitter": 1, "n_hof": rng.randrange(2, 7), "n_pop": rng.randrange(4, 11),
                      "n_stop": rng.randrange(30, 61) if ctx.quick else rng.randrange(40, 151), "sel": rng.randrange(2), "adapt": rng.randrange(2),
@@ -1163,6 +1175,9 @@ def run_jobs_analyse(ctx, res, drv, pool, jobs, collected):
             if 0 < job["n_hof"] <= job["n_pop"]:
                 res.notes.append(f"run raised {a.get('error_msg')} for job {job}")
                 res.count("errors", "solve:unexpected:" + a["error"])
+                # a well-formed configuration has a result (termination / 'the reported result is the best entry'): raising is a violation
+                res.violation(f"solve:raises:{a['error']}", f"solve() raised on a well-formed configuration (0 < n_hof <= n_pop): {str(a.get('error_msg'))[:200]}",
+                              input={"kind": "job", "job": job, "hashseed": a.get("hashseed")})
         for role, out in runs.items():
             oracle_run(res, job, out)
         sl = solve_line(job, a)
